@@ -7,6 +7,7 @@ INVARIANT Bounded
 INVARIANT NoPanic
 INVARIANT HistoryOK
 INVARIANT WindowOK
+INVARIANT ScaleOK
 INVARIANT AtDone
 PROPERTY Monotone
 CHECK_DEADLOCK FALSE
